@@ -374,31 +374,25 @@ def wPostI : Iface := ⟨[], [⟨"Create", "shoot: Post(\"/u\")\n".toList, [pCtx
 def wPostArgs : Args := [("ctx", .ctx "t"), ("u", .struct false [("Name", .txt "n".toList)])]
 def wPostReq : Request := ⟨"POST", "/u".toList, none, some "u", [("Accept", "application/json"), ("Content-Type", "application/json")], some "t"⟩
 
-theorem C06_F_retryBody_witness :
+/-- fixed in 371dec3 (was F_retryBody: the second attempt went out with Content-Length N and no bytes):
+    the re-sent POST carries the complete JSON body, as the property says -/
+theorem C06_retryBody_fixed :
     callModel wPostI "Create" wPostArgs = some (.sent wPostReq) ∧
-    F_retryBody wPostReq 1 = true ∧
-    (attempt wPostReq none 1).body = .drained "u" ∧
-    (specAttempt wPostReq none 1).body = .whole "u" := by
+    (attempt wPostReq none 1).body = .whole "u" ∧
+    attempt wPostReq none 1 = specAttempt wPostReq none 1 ∧
+    attempt wPostReq (some 0) 2 = specAttempt wPostReq (some 0) 2 := by
   decide
 
 end Witnesses
 
 /-! ## every attempt of a retrying chain is the request of the call -/
 
-/-- outside F_retryBody (no body, or the first attempt) what goes over the wire is what the property says:
-    the call's verb, path, query, headers and complete body, under the caller's context -/
-theorem C06_attempt (r : Request) (cancelAfter : Option Nat) (j : Nat) (h : F_retryBody r j = false) :
-    attempt r cancelAfter j = specAttempt r cancelAfter j := by
-  unfold attempt specAttempt
-  cases hb : r.body with
-  | none => rfl
-  | some b =>
-    have : j = 0 := by
-      simp [F_retryBody, hb] at h
-      exact h
-    simp [this]
+/-- on every attempt what goes over the wire is what the property says: the call's verb, path, query,
+    headers and complete body, under the caller's context -/
+theorem C06_attempt (r : Request) (cancelAfter : Option Nat) (j : Nat) :
+    attempt r cancelAfter j = specAttempt r cancelAfter j := rfl
 
-/-- on EVERY attempt — F_retryBody included — everything but the body is the call's: verb, path, query,
+/-- on every attempt everything is the call's: verb, path, query,
     headers, and the context the caller passed (its values; its end exactly once the caller has cancelled
     it, never for a call without a context parameter) -/
 theorem C06_attempt_identity (r : Request) (cancelAfter : Option Nat) (j : Nat) :
